@@ -244,3 +244,260 @@ package rhp
 //@   prop C20
 //@   modifies a
 //@   ensures @accepts-only-bounded-length result == nil ==> len(b) == 64 || len(b) == 72
+
+// ------------------------------------------------------------ encoding.go / transport.go: message sizes (C19, reduced)
+// Every object whose maxLen() is an exact size encodes within it when it respects the protocol's
+// batch limits; the readers apply at least that limit (plus the response flag byte).
+
+// requests must fit maxLen() exactly (ReadRequest reads at most maxLen() bytes); a response is
+// preceded by one flag byte and read with a limit of RPCError.maxLen() + maxLen() = 1024 + maxLen()
+
+//@ func (*RPCFreeSectorsRequest).encodeTo
+//@   prop C19
+//@   requires len(r.Indices) <= MaxSectorBatchSize
+//@   wire-length <= r.maxLen()
+
+//@ func (*RPCFreeSectorsSecondResponse).encodeTo
+//@   prop C19
+//@   wire-length <= r.maxLen() + 1023
+
+//@ func (*RPCFreeSectorsThirdResponse).encodeTo
+//@   prop C19
+//@   wire-length <= r.maxLen() + 1023
+
+//@ func (*RPCAppendSectorsRequest).encodeTo
+//@   prop C19
+//@   requires len(r.Sectors) <= MaxSectorBatchSize
+//@   wire-length <= r.maxLen()
+
+//@ func (*RPCAppendSectorsSecondResponse).encodeTo
+//@   prop C19
+//@   wire-length <= r.maxLen() + 1023
+
+//@ func (*RPCAppendSectorsThirdResponse).encodeTo
+//@   prop C19
+//@   wire-length <= r.maxLen() + 1023
+
+//@ func (*RPCLatestRevisionRequest).encodeTo
+//@   prop C19
+//@   wire-length <= r.maxLen()
+
+//@ func (*RPCLatestRevisionResponse).encodeTo
+//@   prop C19
+//@   wire-length <= r.maxLen() + 1023
+
+//@ func (*RPCReadSectorRequest).encodeTo
+//@   prop C19
+//@   wire-length <= r.maxLen()
+
+//@ func (*RPCWriteSectorResponse).encodeTo
+//@   prop C19
+//@   wire-length <= r.maxLen() + 1023
+
+//@ func (*RPCSectorRootsRequest).encodeTo
+//@   prop C19
+//@   wire-length <= r.maxLen()
+
+//@ func (*RPCAccountBalanceRequest).encodeTo
+//@   prop C19
+//@   wire-length <= r.maxLen()
+
+//@ func (*RPCAccountBalanceResponse).encodeTo
+//@   prop C19
+//@   wire-length <= r.maxLen() + 1023
+
+//@ func (*RPCReplenishAccountsRequest).encodeTo
+//@   prop C19
+//@   requires len(r.Accounts) <= MaxAccountBatchSize
+//@   wire-length <= r.maxLen()
+
+//@ func (*RPCReplenishAccountsResponse).encodeTo
+//@   prop C19
+//@   requires len(r.Deposits) <= MaxAccountBatchSize
+//@   wire-length <= r.maxLen() + 1023
+
+//@ func (*RPCReplenishAccountsSecondResponse).encodeTo
+//@   prop C19
+//@   wire-length <= r.maxLen() + 1023
+
+//@ func (*RPCReplenishAccountsThirdResponse).encodeTo
+//@   prop C19
+//@   wire-length <= r.maxLen() + 1023
+
+//@ func (*RPCFundAccountsRequest).encodeTo
+//@   prop C19
+//@   requires len(r.Deposits) <= MaxAccountBatchSize
+//@   wire-length <= r.maxLen()
+
+//@ func (*RPCFundAccountsResponse).encodeTo
+//@   prop C19
+//@   requires len(r.Balances) <= MaxAccountBatchSize
+//@   wire-length <= r.maxLen() + 1023
+
+//@ func (*RPCAttachPoolsRequest).encodeTo
+//@   prop C19
+//@   requires len(r.Attachments) <= MaxAccountBatchSize
+//@   wire-length <= r.maxLen()
+
+//@ func (*RPCDetachPoolsRequest).encodeTo
+//@   prop C19
+//@   requires len(r.Detachments) <= MaxAccountBatchSize
+//@   wire-length <= r.maxLen()
+
+//@ func (*RPCVerifySectorRequest).encodeTo
+//@   prop C19
+//@   wire-length <= r.maxLen()
+
+// The limit a reader applies: a request is exactly the object; a response is one flag byte
+// followed by the object (or by an RPCError).  o.maxLen() is the implementation's own bound,
+// an uninterpreted function of the object here.
+//@ func (Object).maxLen
+//@   abstract
+
+//@ func ReadRequest
+//@   prop C19
+//@   requires @maxlen-bounded 0 <= o.maxLen() && o.maxLen() <= 2^32
+//@   at call:withDecoder#1 assert $arg1 >= o.maxLen()
+
+//@ func ReadResponse
+//@   prop C19
+//@   requires @maxlen-bounded 0 <= o.maxLen() && o.maxLen() <= 2^32
+//@   at call:withDecoder#1 assert $arg1 >= 1024 + o.maxLen()
+
+// every implementation of Object.maxLen returns a small non-negative bound (so that the limit
+// arithmetic of the readers cannot wrap)
+//@ func (*RPCError).maxLen
+//@   prop C19
+//@   ensures @error-slack result == 1024
+//@ func (*RPCSettingsRequest).maxLen
+//@   prop C19
+//@   ensures @bounded 0 <= result && result <= 2^32
+//@ func (*RPCSettingsResponse).maxLen
+//@   prop C19
+//@   ensures @bounded 0 <= result && result <= 2^32
+//@ func (*RPCFormContractRequest).maxLen
+//@   prop C19
+//@   ensures @bounded 0 <= result && result <= 2^32
+//@ func (*RPCFormContractResponse).maxLen
+//@   prop C19
+//@   ensures @bounded 0 <= result && result <= 2^32
+//@ func (*RPCFormContractSecondResponse).maxLen
+//@   prop C19
+//@   ensures @bounded 0 <= result && result <= 2^32
+//@ func (*RPCFormContractThirdResponse).maxLen
+//@   prop C19
+//@   ensures @bounded 0 <= result && result <= 2^32
+//@ func (*RPCRenewContractRequest).maxLen
+//@   prop C19
+//@   ensures @bounded 0 <= result && result <= 2^32
+//@ func (*RPCRenewContractResponse).maxLen
+//@   prop C19
+//@   ensures @bounded 0 <= result && result <= 2^32
+//@ func (*RPCRenewContractSecondResponse).maxLen
+//@   prop C19
+//@   ensures @bounded 0 <= result && result <= 2^32
+//@ func (*RPCRenewContractThirdResponse).maxLen
+//@   prop C19
+//@   ensures @bounded 0 <= result && result <= 2^32
+//@ func (*RPCRefreshContractRequest).maxLen
+//@   prop C19
+//@   ensures @bounded 0 <= result && result <= 2^32
+//@ func (*RPCRefreshContractResponse).maxLen
+//@   prop C19
+//@   ensures @bounded 0 <= result && result <= 2^32
+//@ func (*RPCRefreshContractSecondResponse).maxLen
+//@   prop C19
+//@   ensures @bounded 0 <= result && result <= 2^32
+//@ func (*RPCRefreshContractThirdResponse).maxLen
+//@   prop C19
+//@   ensures @bounded 0 <= result && result <= 2^32
+//@ func (*RPCFreeSectorsRequest).maxLen
+//@   prop C19
+//@   ensures @bounded 0 <= result && result <= 2^32
+//@ func (*RPCFreeSectorsResponse).maxLen
+//@   prop C19
+//@   ensures @bounded 0 <= result && result <= 2^32
+//@ func (*RPCFreeSectorsSecondResponse).maxLen
+//@   prop C19
+//@   ensures @bounded 0 <= result && result <= 2^32
+//@ func (*RPCFreeSectorsThirdResponse).maxLen
+//@   prop C19
+//@   ensures @bounded 0 <= result && result <= 2^32
+//@ func (*RPCAppendSectorsRequest).maxLen
+//@   prop C19
+//@   ensures @bounded 0 <= result && result <= 2^32
+//@ func (*RPCAppendSectorsResponse).maxLen
+//@   prop C19
+//@   ensures @bounded 0 <= result && result <= 2^32
+//@ func (*RPCAppendSectorsSecondResponse).maxLen
+//@   prop C19
+//@   ensures @bounded 0 <= result && result <= 2^32
+//@ func (*RPCAppendSectorsThirdResponse).maxLen
+//@   prop C19
+//@   ensures @bounded 0 <= result && result <= 2^32
+//@ func (*RPCLatestRevisionRequest).maxLen
+//@   prop C19
+//@   ensures @bounded 0 <= result && result <= 2^32
+//@ func (*RPCLatestRevisionResponse).maxLen
+//@   prop C19
+//@   ensures @bounded 0 <= result && result <= 2^32
+//@ func (*RPCReadSectorRequest).maxLen
+//@   prop C19
+//@   ensures @bounded 0 <= result && result <= 2^32
+//@ func (*RPCReadSectorResponse).maxLen
+//@   prop C19
+//@   ensures @bounded 0 <= result && result <= 2^32
+//@ func (*RPCWriteSectorRequest).maxLen
+//@   prop C19
+//@   ensures @bounded 0 <= result && result <= 2^32
+//@ func (*RPCWriteSectorResponse).maxLen
+//@   prop C19
+//@   ensures @bounded 0 <= result && result <= 2^32
+//@ func (*RPCSectorRootsRequest).maxLen
+//@   prop C19
+//@   ensures @bounded 0 <= result && result <= 2^32
+//@ func (*RPCSectorRootsResponse).maxLen
+//@   prop C19
+//@   ensures @bounded 0 <= result && result <= 2^32
+//@ func (*RPCAccountBalanceRequest).maxLen
+//@   prop C19
+//@   ensures @bounded 0 <= result && result <= 2^32
+//@ func (*RPCAccountBalanceResponse).maxLen
+//@   prop C19
+//@   ensures @bounded 0 <= result && result <= 2^32
+//@ func (*RPCReplenishAccountsRequest).maxLen
+//@   prop C19
+//@   ensures @bounded 0 <= result && result <= 2^32
+//@ func (*RPCReplenishAccountsResponse).maxLen
+//@   prop C19
+//@   ensures @bounded 0 <= result && result <= 2^32
+//@ func (*RPCReplenishAccountsSecondResponse).maxLen
+//@   prop C19
+//@   ensures @bounded 0 <= result && result <= 2^32
+//@ func (*RPCReplenishAccountsThirdResponse).maxLen
+//@   prop C19
+//@   ensures @bounded 0 <= result && result <= 2^32
+//@ func (*RPCFundAccountsRequest).maxLen
+//@   prop C19
+//@   ensures @bounded 0 <= result && result <= 2^32
+//@ func (*RPCFundAccountsResponse).maxLen
+//@   prop C19
+//@   ensures @bounded 0 <= result && result <= 2^32
+//@ func (*RPCAttachPoolsRequest).maxLen
+//@   prop C19
+//@   ensures @bounded 0 <= result && result <= 2^32
+//@ func (*RPCAttachPoolsResponse).maxLen
+//@   prop C19
+//@   ensures @bounded 0 <= result && result <= 2^32
+//@ func (*RPCDetachPoolsRequest).maxLen
+//@   prop C19
+//@   ensures @bounded 0 <= result && result <= 2^32
+//@ func (*RPCDetachPoolsResponse).maxLen
+//@   prop C19
+//@   ensures @bounded 0 <= result && result <= 2^32
+//@ func (*RPCVerifySectorRequest).maxLen
+//@   prop C19
+//@   ensures @bounded 0 <= result && result <= 2^32
+//@ func (*RPCVerifySectorResponse).maxLen
+//@   prop C19
+//@   ensures @bounded 0 <= result && result <= 2^32
